@@ -241,3 +241,74 @@ func verifH_C16_late_positions() {
 	probe(doc2, "after internalising and reloading")
 	verifReach("end")
 }
+
+//verif:harness id=C16 tier=quick,thorough witness=end,accepted,rejected bounds="discriminator mappings follow their schemas: a polymorphic schema (oneOf or anyOf [Dog, Cat] with discriminator kind and a mapping) whose members live in pets.json, written in the root with external references in members and mapping, or itself in pets.json with that file's own references; four values (a dog, a cat, a dog with a cat's member type, an unmapped kind): the verdict of the schema is the same before internalising and after internalising, serialising and reloading with external references disallowed, and the serialised document names no other file"
+func verifH_C16_discriminator_mapping() {
+	verifMapOrder()
+	keyword := []string{"oneOf", "anyOf"}[verifChoose("keyword", 2)]
+	pets := `"Dog":{"type":"object","required":["kind","bark"],"properties":{"kind":{"type":"string"},"bark":{"type":"string"}}},"Cat":{"type":"object","required":["kind","lives"],"properties":{"kind":{"type":"string"},"lives":{"type":"integer"}}}`
+	poly := func(prefix string) string {
+		return `{"` + keyword + `":[{"$ref":"` + prefix + `#/components/schemas/Dog"},{"$ref":"` + prefix + `#/components/schemas/Cat"}],"discriminator":{"propertyName":"kind","mapping":{"dog":"` + prefix + `#/components/schemas/Dog","cat":"` + prefix + `#/components/schemas/Cat"}}}`
+	}
+	files := map[string]string{}
+	var schema string
+	if verifChoose("where", 2) == 0 {
+		files["/r/pets.json"] = `{"components":{"schemas":{` + pets + `}}}`
+		schema = poly("pets.json")
+	} else {
+		files["/r/pets.json"] = `{"components":{"schemas":{` + pets + `,"Pet":` + poly("") + `}}}`
+		schema = `{"$ref":"pets.json#/components/schemas/Pet"}`
+	}
+	rootText := `{"openapi":"3.0.0","info":{"title":"t","version":"1"},"paths":{"/a":{"get":{"operationId":"op","responses":{"200":{"description":"d","content":{"application/json":{"schema":` + schema + `}}}}}}}}`
+	rootLoc := &url.URL{Path: "/r/doc.json"}
+	loader := NewLoader()
+	loader.IsExternalRefsAllowed = true
+	loader.ReadFromURIFunc = func(l *Loader, u *url.URL) ([]byte, error) {
+		if u.Path == rootLoc.Path {
+			return []byte(rootText), nil
+		}
+		if t, ok := files[u.Path]; ok {
+			return []byte(t), nil
+		}
+		return nil, errors.New("no such file")
+	}
+	doc, err := loader.LoadFromDataWithPath([]byte(rootText), rootLoc)
+	verifAssert(err == nil && doc != nil, "C16 discriminator: the multi-file document loads")
+	if err != nil || doc == nil {
+		return
+	}
+	values := []map[string]any{
+		{"kind": "dog", "bark": "wuff"},
+		{"kind": "cat", "lives": 9.0},
+		{"kind": "dog", "lives": 9.0},
+		{"kind": "bird", "bark": "wuff"},
+	}
+	v := values[verifChoose("value", len(values))]
+	verdict := func(d *T) bool {
+		s := d.Paths.Value("/a").Get.Responses.Value("200").Value.Content["application/json"].Schema
+		return s != nil && s.Value != nil && s.Value.VisitJSON(v) == nil
+	}
+	before := verdict(doc)
+	if before {
+		verifReach("accepted")
+	} else {
+		verifReach("rejected")
+	}
+	doc.InternalizeRefs(context.Background(), nil)
+	verifAssert(verdict(doc) == before, "C16 discriminator: the internalised document gives the same verdict")
+	b, merr := json.Marshal(doc)
+	verifAssert(merr == nil, "C16 discriminator: the internalised document serialises")
+	if merr != nil {
+		return
+	}
+	verifAssert(!strings.Contains(string(b), "pets.json"), "C16 discriminator: the internalised document names no other file (mapping values included)")
+	l2 := NewLoader()
+	l2.ReadFromURIFunc = func(*Loader, *url.URL) ([]byte, error) { return nil, errors.New("no reads expected") }
+	doc2, rerr := l2.LoadFromData(b)
+	verifAssert(rerr == nil && doc2 != nil, "C16 discriminator: the internalised document loads with external references disallowed")
+	if rerr != nil || doc2 == nil {
+		return
+	}
+	verifAssert(verdict(doc2) == before, "C16 discriminator: after internalising, serialising and reloading the schema gives the same verdict")
+	verifReach("end")
+}
